@@ -16,7 +16,7 @@ proves that ε = 0 solves the targeting score equation when both models are satu
 returns that root is measured (|ε| ≤ 1e-6) by the harness.
 -/
 import ZepidVerif.Lemmas.Mixture
-import ZepidVerif.Lemmas.Ipw
+import ZepidVerif.Lemmas.IpwPop
 import Mathlib.Algebra.Order.Field.Rat
 import Mathlib.Tactic.NormNum
 import Mathlib.Data.Rat.Floor
